@@ -151,6 +151,43 @@ impl Samples for ManyRows {
     fn rand(r: &mut Rng) -> Self { let n = *r.pick(&[0usize, 64, 65, 128, 129, 300]); ManyRows { rows: (0..n).map(|_| (if r.chance(1, 2) { None } else { Some(r.next() as u16) }, None)).collect(), tail: if r.chance(1, 2) { None } else { Some(Some(true)) } } }
 }
 
+// sequences of zero-WIDTH composite elements (more elements than bytes left in the message), and two different
+// enums with the same name and arity in one schema (derive(Schema) names a type by its identifier only)
+#[derive(Serialize, Schema, Clone)] struct ZTick { at: () }
+#[derive(Serialize, Schema, Clone)] struct ZTock { a: (), b: UnitS0, c: [u8; 0] }
+#[derive(Serialize, Schema, Clone)] struct UnitS0;
+#[derive(Serialize, Schema)] struct Ticks { n: u8, ticks: Vec<ZTick>, tocks: Vec<ZTock> }
+#[derive(Serialize, Schema)] struct TicksLast(Vec<ZTick>);
+mod motor { use super::*; #[derive(Serialize, Schema, Clone)] pub enum State { On, Off(u8) } }
+mod heater { use super::*; #[derive(Serialize, Schema, Clone)] pub enum State { Idle(u16), Busy } }
+#[derive(Serialize, Schema)] struct TwoStates { m: motor::State, h: heater::State, hm: Option<motor::State>, v: Vec<heater::State>, mh: (heater::State, motor::State) }
+impl Samples for Ticks {
+    fn max_sample() -> Self { Ticks { n: 255, ticks: vec![ZTick { at: () }; 130], tocks: vec![ZTock { a: (), b: UnitS0, c: [] }; 9] } }
+    fn rand(r: &mut Rng) -> Self { let n = *r.pick(&[0usize, 1, 2, 9, 17, 130]); let m = *r.pick(&[0usize, 1, 9, 64]); Ticks { n: r.next() as u8, ticks: vec![ZTick { at: () }; n], tocks: vec![ZTock { a: (), b: UnitS0, c: [] }; m] } }
+    fn candidates() -> Vec<Self> { [0usize, 1, 2, 3, 9, 130].iter().map(|n| Ticks { n: 1, ticks: vec![ZTick { at: () }; *n], tocks: vec![ZTock { a: (), b: UnitS0, c: [] }; *n / 2 + 1] }).collect() }
+}
+impl Samples for TicksLast {
+    fn max_sample() -> Self { TicksLast(vec![ZTick { at: () }; 300]) }
+    fn rand(r: &mut Rng) -> Self { TicksLast(vec![ZTick { at: () }; *r.pick(&[0usize, 1, 2, 9, 127, 128, 300])]) }
+    fn candidates() -> Vec<Self> { [0usize, 1, 2, 9, 127, 128, 300].iter().map(|n| TicksLast(vec![ZTick { at: () }; *n])).collect() }
+}
+impl Samples for TwoStates {
+    fn max_sample() -> Self { TwoStates { m: motor::State::Off(255), h: heater::State::Idle(65535), hm: Some(motor::State::Off(1)), v: vec![heater::State::Busy, heater::State::Idle(3)], mh: (heater::State::Busy, motor::State::On) } }
+    fn rand(r: &mut Rng) -> Self { let mut c = Self::candidates(); let k = r.below(c.len() as u64) as usize; c.swap_remove(k) }
+    fn candidates() -> Vec<Self> {
+        let ms = [motor::State::On, motor::State::Off(7)];
+        let hs = [heater::State::Idle(300), heater::State::Busy];
+        let mut out = Vec::new();
+        for (i, m) in ms.iter().enumerate() {
+            for (j, h) in hs.iter().enumerate() {
+                out.push(TwoStates { m: m.clone(), h: h.clone(), hm: if (i + j) % 2 == 0 { None } else { Some(ms[1 - i].clone()) }, v: vec![hs[1 - j].clone(), h.clone()], mh: (hs[j].clone(), ms[1 - i].clone()) });
+                out.push(TwoStates { m: m.clone(), h: h.clone(), hm: Some(m.clone()), v: vec![], mh: (hs[1 - j].clone(), m.clone()) });
+            }
+        }
+        out
+    }
+}
+
 // explicit discriminants out of declaration order: serde numbers variants by position, whatever `= N` says
 #[derive(Serialize, Schema)] enum Discr { Stop = 0xFF, Start = 1, Pause = 2 }
 #[derive(Serialize, Schema)] #[repr(u8)] enum DiscrData { Data(u32) = 2, Ack = 1, Pair(u8, bool) = 7, Next }
@@ -189,6 +226,7 @@ pub fn for_each_corpus_type(r: &mut Rng, n: usize, out: &mut Vec<String>, dynami
         postcard_schema::key::Key, OwnedDataModelType, &'static postcard_schema::schema::DataModelType, Vec<OwnedDataModelType>,
         UnitS, NewS, TupS, Tup0, Named0, Point, GenS<u8, String>, GenS<Point, Option<u16>>, Life<'static>, Nested, AllKinds, OneVar,
         GenE<u8>, GenE<Point>, GenE<GenE<String>>, r#RawName, RawFields, RawVariants, Discr, DiscrData, ManyOpts, ManyRows, Vec<AllKinds>, Option<Nested>, BTreeMap<String, AllKinds>,
+        Ticks, TicksLast, TwoStates,
     );
     crate::generated_schema::generated_schema_lines(r, n, out, dynamic);
 }
@@ -270,6 +308,8 @@ pub fn real_fns() -> Vec<RealFn> {
         DUnitS, DNewS, DTupS, DTup0, DNamed0, DPoint, DGenS<u8, String>, DNested, DAllKinds, DGenE<DPoint>, DGenE<DGenE<String>>, Vec<DAllKinds>, Option<DNested>,
     );
     v.extend(crate::generated_schema::generated_real_fns());
+    // zero-sized Rust types that are NOT zero-width on the wire, in every container position
+    v.extend(crate::zst::zst_real_fns());
     v
 }
 
